@@ -319,21 +319,45 @@ def bounded(b):
         ok, r = b.guard("merge/no_exception", {"single": wrap}, lambda: sc.merge_parts(arg))
         if ok:
             b.case("merge/single_part_returned_as_is", r is p, {"single": wrap}, "a different object was returned")
+    # ONE Fine / Da Capo object put on every part (as the MEI reader does for a mark that applies to all staves): the merged part holds
+    # the first part's, once
+    for mode in ("voice", "staff", "auto"):
+        pa = G.build_part("PA", 4, notes=[("a0", 0, 8, "C", None, 5, 1, 1), ("a1", 8, 8, "D", None, 5, 1, 1), ("a2", 16, 16, "E", None, 5, 1, 1)], measures=[(0, 16), (16, 32)])
+        pb = G.build_part("PB", 4, notes=[("b0", 0, 16, "C", None, 3, 1, 1), ("b1", 16, 16, "G", None, 2, 1, 1)], measures=[(0, 16), (16, 32)])
+        fine, dc = sc.Fine(), sc.DaCapo()
+        for p_ in (pa, pb):
+            p_.add(fine, 16)
+            p_.add(dc, 32)
+        case = {"shared_marks": "one Fine at the barline and one Da Capo at the end, on both parts", "reassign": mode}
+        ok, merged = b.guard("merge/no_exception", case, lambda: sc.merge_parts([pa, pb], reassign=mode))
+        if ok:
+            got = sorted([("Fine", o.start.t) for o in merged.iter_all(sc.Fine)] + [("DaCapo", o.start.t) for o in merged.iter_all(sc.DaCapo)])
+            b.case("merge/structural_elements_from_the_first_part_only", got == [("DaCapo", 32), ("Fine", 16)], case, "Fine / Da Capo marks in the merged part %r, the first part has a Fine at 16 and a Da Capo at 32" % got)
     # the convenience loader returns one part holding every note of every part of the file
     import os
     import partitura as pt
     base = os.path.join(os.path.dirname(pt.__file__), "..", "tests", "data")
     for rel in ("mei/Bach_Prelude.mei", "musicxml/test_clefs_tss.xml", "musicxml/test_merge_voices1.xml", "musicxml/test_part_group.xml", "musicxml/test_multi_part.xml",
-                "musicxml/test_note_ties.xml"):
+                "musicxml/test_multi_part_change_divs.xml", "musicxml/test_note_ties.xml"):
         path = os.path.join(base, rel)
         if not os.path.exists(path):
             continue
         case = {"file": rel}
-        ok, res = b.guard("loader/no_exception", case, lambda: (pt.load_score(path), pt.load_score_as_part(path)))
+        # (the score's array is taken BEFORE the convenience loader runs; the file is then loaded as one part twice)
+        def load_all():
+            score_ = pt.load_score(path)
+            want_ = sorted((round(float(r["onset_quarter"]), 4), round(float(r["duration_quarter"]), 4), int(r["pitch"])) for r in score_.note_array())
+            divs_ = sorted({int(p_._quarter_durations[0]) for p_ in score_.parts})
+            return score_, want_, divs_, pt.load_score_as_part(path), pt.load_score_as_part(path)
+        ok, res = b.guard("loader/no_exception", case, load_all)
         if not ok:
             continue
-        score, part = res
-        want = sorted((round(float(r["onset_quarter"]), 4), round(float(r["duration_quarter"]), 4), int(r["pitch"])) for r in score.note_array())
+        score, want, divs_, part, part_again = res
+        row = lambda p_: sorted((int(r["onset_div"]), int(r["duration_div"]), int(r["pitch"]), int(r["voice"])) for r in p_.note_array())
+        L_ = int(np.lcm.reduce(divs_)) if divs_ else 1
+        b.case("loader/load_score_as_part_holds_every_note_of_every_part", row(part) == row(part_again) and int(part._quarter_durations[0]) == int(part_again._quarter_durations[0]) == L_, dict(case, loaded="twice"),
+               "the file loaded as one part a second time gives other rows or divisions: first %r (divisions %r), second %r (divisions %r); the parts' divisions are %r" % (
+                   row(part)[:3], part._quarter_durations[0], row(part_again)[:3], part_again._quarter_durations[0], divs_), nontrivial=len(score.parts) > 1)
         got = sorted((round(float(r["onset_quarter"]), 4), round(float(r["duration_quarter"]), 4), int(r["pitch"])) for r in part.note_array())
         b.case("loader/load_score_as_part_holds_every_note_of_every_part", isinstance(part, sc.Part) and got == want, case,
                "%d notes in the returned part, %d in the score (parts: %r)" % (len(got), len(want), [len(p.notes_tied) for p in score.parts]), nontrivial=len(score.parts) > 1)
